@@ -368,6 +368,105 @@ def nested_caches() -> Optional[dict]:
     return None
 
 
+def cache_variants() -> Optional[dict]:
+    """The wrapper stands for *the object it was given*, through that object's public entry points, whatever class the
+    cache itself is: (i) a cache directly around another cache with another store policy, (ii) cache classes that
+    inherit their hooks (a subclass adding nothing, one overriding only the setters, hooks from a mixin), (iii) a
+    wrapped validator that is a user subclass of a built-in one overriding __call__ / validate_async."""
+    from koda_validate import IntValidator, StringValidator
+
+    def call(v, x, mode):
+        return v(x) if mode == "sync" else drive(v.validate_async(x))
+
+    class Inherits(LogCache):
+        pass
+
+    class OnlySetters(LogCache):
+        def cache_set_sync(self, val, cache_val):
+            self.log.append(("set*", val))
+            LogCache.cache_set_sync(self, val, cache_val)
+
+        async def cache_set_async(self, val, cache_val):
+            await Yield()
+            self.cache_set_sync(val, cache_val)
+
+    class HooksMixin:
+        def cache_get_sync(self, val):
+            return LogCache.cache_get_sync(self, val)
+
+        def cache_set_sync(self, val, cache_val):
+            LogCache.cache_set_sync(self, val, cache_val)
+
+        async def cache_get_async(self, val):
+            await Yield()
+            return LogCache.cache_get_sync(self, val)
+
+        async def cache_set_async(self, val, cache_val):
+            await Yield()
+            LogCache.cache_set_sync(self, val, cache_val)
+
+    class FromMixin(HooksMixin, CacheValidatorBase):  # type: ignore
+        def __init__(self, validator, policy, ct):
+            CacheValidatorBase.__init__(self, validator)
+            self.policy, self.ct, self.store, self.log = policy, ct, [], []
+        _find = LogCache._find
+
+    class Shouting(StringValidator):
+        """normalises its input before validating - consistently through both entry points"""
+        def __call__(self, val):
+            return super().__call__(val.strip().upper() if isinstance(val, str) else val)
+
+        async def validate_async(self, val):
+            return await super().validate_async(val.strip().upper() if isinstance(val, str) else val)
+
+    for mode in ("sync", "async"):
+        ct = Ctx(G.STD_CLASSES, []).ct
+        # (i) identity-keyed cache in front of an equality-keyed one (and the other way round)
+        for outer_p, inner_p in (("id", "eq"), ("eq", "id")):
+            cnt = Counting(IntValidator())
+            inner = LogCache(cnt, inner_p, ct)
+            outer = LogCache(inner, outer_p, ct)
+            if outer.validator is not inner:
+                return {"signature": "C20:variants", "what": "a cache built around another cache does not hold the object it was given"}
+            one = 1
+            for x in (one, 1.0, True, one, "s", 1.0):
+                n_inner = len([ev for ev in inner.log if ev[0] == "get"])
+                hit = outer._find(x).is_just
+                expected = None if hit else call(LogCache(Counting(IntValidator()), inner_p, ct), x, mode)
+                r = call(outer, x, mode)
+                asked_inner = len([ev for ev in inner.log if ev[0] == "get"]) > n_inner
+                if hit == asked_inner:
+                    return {"signature": "C20:variants",
+                            "what": f"cache ({outer_p}) around cache ({inner_p}), {mode}, input {x!r}: the outer store {'held' if hit else 'did not hold'} it, "
+                                    f"yet the inner cache was {'asked' if asked_inner else 'not asked'}"}
+                if expected is not None and (r.is_valid != expected.is_valid):
+                    return {"signature": "C20:variants", "what": f"cache around cache, {mode}: {x!r} gave {r!r}; the wrapped cache alone gives {expected!r}"}
+        # (ii) cache classes that inherit their hooks
+        for cls in (Inherits, OnlySetters, FromMixin):
+            for policy in ("id", "eq"):
+                cnt = Counting(IntValidator())
+                cache = cls(cnt, policy, ct)
+                a = 7
+                seq = [a, a, "x", "x", a]
+                for x in seq:
+                    call(cache, x, mode)
+                # every first occurrence runs the validator and is stored; every repetition is served from the store
+                if len(cnt.runs) != 2 or len(cache.store) != 2:
+                    return {"signature": "C20:variants",
+                            "what": f"{cls.__name__} ({policy} store, {mode}): after {seq!r} the wrapped validator ran {len(cnt.runs)} times and the store holds "
+                                    f"{len(cache.store)} entries; two inputs are new, three are repetitions"}
+        # (iii) a wrapped user subclass overriding the public entry points
+        v = Shouting()
+        cache = LogCache(v, "eq", ct)
+        for x in (" ab ", "cd", " ab ", 5):
+            want = call(Shouting(), x, mode)
+            got = call(cache, x, mode)
+            if got.is_valid != want.is_valid or (got.is_valid and got.val != want.val):
+                return {"signature": "C20:variants",
+                        "what": f"cache around a StringValidator subclass that overrides __call__ / validate_async ({mode}): {x!r} gave {got!r}; the validator alone gives {want!r}"}
+    return None
+
+
 def run(tier: str, rng: random.Random, proof_ok: bool) -> dict:
     t0 = time.time()
     violations: List[dict] = []
@@ -475,6 +574,10 @@ def run(tier: str, rng: random.Random, proof_ok: bool) -> dict:
     if nc and nc["signature"] not in seen:
         seen.add(nc["signature"])
         violations.append({"kind": "oracle", **nc, "replay_case": {"nested": True}})
+    cv = cache_variants()
+    if cv and cv["signature"] not in seen:
+        seen.add(cv["signature"])
+        violations.append({"kind": "oracle", **cv, "replay_case": {"variants": True}})
     # (d) correspondence: the model's history function on the same histories
     mism, n_coq = model_histories(coq_items, violations)
     cov = {"evaluations": n_hist + n_sched, "distinct_nontrivial": n_hist + n_inter,
@@ -568,6 +671,10 @@ def replay(path: str) -> int:
     if rc.get("nested"):
         r = nested_caches()
         print("violation:" if r else "property holds for nested cache wrappers", r["what"] if r else "")
+        return 1 if r else 0
+    if rc.get("variants"):
+        r = cache_variants()
+        print("violation:" if r else "property holds for caches over caches, inherited hooks and overridden entry points", r["what"] if r else "")
         return 1 if r else 0
     vt = from_json(rc["v"])
     lazy = from_json(rc.get("lazy", []))
